@@ -9,6 +9,8 @@ CONSTANTS
   NewestFirst = TRUE
   RoutesFirst = TRUE
   OtherForAll = FALSE
+  EmptyMeansAll = FALSE
+  StatusSucceeds = FALSE
   StarWithCreds = FALSE
 INVARIANT OnlyAllowedOrigins
 INVARIANT NoOriginUntouched
@@ -18,5 +20,6 @@ INVARIANT NoWildcardWithCredentials
 INVARIANT PreflightOnlyOnSuccessWithAllow
 INVARIANT AllowRemovedOnPreflight
 INVARIANT DeniedPreflightWithdrawsGrants
+INVARIANT NoApprovalAfterRaise
 INVARIANT AllowOtherwiseKept
 INVARIANT Emit
